@@ -27,6 +27,8 @@ for d in sorted(glob.glob(os.path.join(root, "benign", "C*-*"))):
         for p in anch.get(f, []):
             if p not in props:
                 props.append(p)
+    if os.environ.get("BENIGN_ALL"):  # every property's check, not only those anchored in the touched files
+        props = props + [p for p in sorted({q for v in anch.values() for q in v}) if p not in props]
     a = subprocess.run(["git", "-C", "/repo", "apply", os.path.join(d, "patch.diff")], capture_output=True, text=True)
     if a.returncode != 0:
         results[name] = {"error": "patch does not apply: " + a.stderr.strip()}
